@@ -4,7 +4,7 @@
    compared with what the implementation produced.  Extracted separately from Check/Run.v so that the specification
    checker keeps working when the translated model does not compile. *)
 From Coq Require Import ZArith List Bool Arith.
-From SpadeV Require Import Num.Decode Num.Decode2 Geom.Pred Obs.State Obs.Spec Vmap.Model Dcel.Raw Gen.DcelOps Tri.Legalize Tri.Insert Tri.Locate Tri.InsertLine Check.Codes Check.Run.
+From SpadeV Require Import Num.Decode Num.Decode2 Geom.Pred Obs.State Obs.Spec Vmap.Model Dcel.Raw Gen.DcelOps Tri.Legalize Tri.Insert Tri.Locate Tri.InsertLine Obs.LineSpec Tri.LineIter Tri.Remove Check.Codes Check.Run.
 Import ListNotations.
 
 Definition dcel_eqb (a b : dcel) : bool :=
@@ -176,7 +176,160 @@ Definition check_nn_model (p : obs) (x y : Z) (res : list Z) : list (tag * bool)
   | _, _ => []
   end.
 
-Fixpoint run_model_steps (p : obs) (k : nat) (l : list step) : list verdict :=
+(* ---- LineIntersectionIterator: the item list must be the model's list, item for item ---- *)
+Definition litem_eqb (x y : litem) : bool :=
+  match x, y with
+  | IX e, IX e' => e =? e'
+  | IV v, IV v' => v =? v'
+  | IO e, IO e' => e =? e'
+  | _, _ => false
+  end.
+Definition opt_items_eqb (m : option (list litem)) (its : list litem) : bool :=
+  match m with Some l => list_eqb litem_eqb l its | None => false end.
+(* inputs on which every floating-point comparison of the iterator (projections, squared distances, one dot product) is computed
+   without rounding: coordinates are integers below 2^25 (f32: 2^10) on a common scale 2^em, em >= -400 (f32: -50) *)
+Definition line_exact (f32 : bool) (allp : list pnt) (em : Z) : bool :=
+  let bound := if f32 then 1024%Z else 33554432%Z in
+  let emlo := if f32 then (-50)%Z else (-400)%Z in
+  forallb (fun p => (Z.abs (fst p) <? bound)%Z && (Z.abs (snd p) <? bound)%Z) allp && (emlo <=? em)%Z.
+(* f64 inputs outside that class on which the rounded comparisons provably take the exact branch: `factor < 0`, `dot > 0` and the distance
+   comparison have the exact sign (all terms of a sum have one sign; rounding is monotone; no underflow above 2^-400), and `factor > length_2`
+   is false both ways for a collinear point that is not beyond line_to (|q - from| <= |to - from| componentwise, rounding monotone);
+   so the only input left out is a vertex on the supporting line strictly beyond line_to *)
+Definition line_monotone_safe (f32 : bool) (pts : list pnt) (a b : pnt) (em : Z) : bool :=
+  negb f32 && (-400 <=? em)%Z &&
+  forallb (fun v => negb ((orient a b v =? 0)%Z && (dist2 a b <? dot a b v)%Z)) pts.
+
+Definition line_start_candidates (p : obs) (pts : list pnt) (dd : dcel) (a : pnt) : list lstart :=
+  if nF p <=? 1 then match locate_degenerate pts dd a with Some s => [s] | None => [] end
+  else flat_map (fun c => match lstart_of_lres (locate_from_closest pts dd a c) with Some s => [s] | None => [] end) (seq 0 (nV p)).
+
+Definition check_line_model (f32 : bool) (handles : bool) (p : obs) (args res : list Z) : list (tag * bool) :=
+  let dd := dcel_of_obs p in
+  let fuel := 2 * nH p + nV p + 1 in      (* Tri/LineIterProofs.v: line_iter_fuel_enough *)
+  match res with
+  | n :: items =>
+    match parse_items items with
+    | Some its =>
+      if handles then
+        match args, decode_points_e (coord_bits p) with
+        | [va; vb], Some (pts, em) =>
+            let a := vpos pts (Z.to_nat va) in let b := vpos pts (Z.to_nat vb) in
+            if line_exact f32 pts em || line_monotone_safe f32 pts a b em
+            then [(T_corr, (length its =? Z.to_nat n) && opt_items_eqb (line_iter_handles pts fuel dd (Z.to_nat va) (Z.to_nat vb)) its)]
+            else []
+        | _, _ => []
+        end
+      else
+        match args with
+        | [x1; y1; x2; y2] =>
+          match decode_points_e (coord_bits p ++ args) with
+          | Some (allp, em) =>
+            let pts := firstn (nV p) allp in
+            match skipn (nV p) allp with
+            | [a; b] =>
+                if line_exact f32 allp em || line_monotone_safe f32 pts a b em
+                then [(T_corr, (length its =? Z.to_nat n) &&
+                               existsb (fun st => opt_items_eqb (line_iter pts fuel dd a b st) its) (line_start_candidates p pts dd a))]
+                else []
+            | _ => []
+            end
+          | None => []
+          end
+        | _ => []
+        end
+    | None => [(T_parse, false)]
+    end
+  | [] => []
+  end.
+
+(* get_conflicting_edges_between_points (confp) / _between_vertices (confv) / intersects_constraint (isc) on CDTs: through the iterator model *)
+Definition check_conf_model (f32 : bool) (kind : Z) (p : obs) (args res : list Z) : list (tag * bool) :=
+  let dd := dcel_of_obs p in
+  let fuel := 2 * nH p + nV p + 1 in      (* Tri/LineIterProofs.v: line_iter_fuel_enough *)
+  if (kind =? OP_confv)%Z then
+    match args, counted res, decode_points_e (coord_bits p) with
+    | [va; vb], Some got, Some (pts, em) =>
+        let a := vpos pts (Z.to_nat va) in let b := vpos pts (Z.to_nat vb) in
+        if line_exact f32 pts em || line_monotone_safe f32 pts a b em
+        then [(T_corr, match conflicting_edges_vertices pts fuel dd (Z.to_nat va) (Z.to_nat vb) with
+                       | Some l => list_eqb Nat.eqb l got | None => false end)]
+        else []
+    | _, _, _ => []
+    end
+  else
+    match args with
+    | [x1; y1; x2; y2] =>
+      match decode_points_e (coord_bits p ++ args) with
+      | Some (allp, em) =>
+        let pts := firstn (nV p) allp in
+        match skipn (nV p) allp with
+        | [a; b] =>
+            if line_exact f32 allp em || line_monotone_safe f32 pts a b em then
+              if (kind =? OP_confp)%Z then
+                match counted res with
+                | Some got =>
+                    [(T_corr, existsb (fun st => match conflicting_edges_points pts fuel dd a b st with
+                                                 | Some l => list_eqb Nat.eqb l got | None => false end) (line_start_candidates p pts dd a))]
+                | None => []
+                end
+              else
+                match res with
+                | [r] =>
+                    [(T_corr, existsb (fun st => match intersects_constraint pts fuel dd a b st with
+                                                 | Some v => Bool.eqb v (r =? 1)%Z | None => false end) (line_start_candidates p pts dd a))]
+                | _ => []
+                end
+            else []
+        | _ => []
+        end
+      | None => []
+      end
+    | _ => []
+    end.
+
+(* ---- whole vertex removals: remove / Triangulation::remove / locate_and_remove on a vertex position.  The model is a function of the
+   previous state: no candidates.  `cdt` selects ConstrainedDelaunayTriangulation::remove (constraints of the vertex released first). ---- *)
+Definition check_remove_model (cdt : bool) (p n : obs) (v : Z) (res : list Z) : list (tag * bool) :=
+  match res with
+  | [rx; ry; rd] =>
+    match obs_points p with
+    | Some pts =>
+        let dd := dcel_of_obs p in
+        let dn := dcel_of_obs n in
+        let fuel := nH p * nH p + 200 in
+        if (v <? 0)%Z then [(T_parse, false)] else
+        match (if cdt then cdt_remove_vertex pts fuel dd (Z.to_nat v) else remove_vertex_full pts fuel dd (Z.to_nat v)) with
+        | Some (d', r) => [(T_corr, dcel_eqb d' dn && (v_x r =? rx)%Z && (v_y r =? ry)%Z && (v_data r =? rd)%Z)]
+        | None => [(T_corr, false)]
+        end
+    | None => [(T_parse, false)]
+    end
+  | _ => []
+  end.
+
+(* locate_and_remove(x, y): `some ..` exactly when a vertex has that position; then it is the removal of that vertex *)
+Definition check_lrm_model (cdt : bool) (p n : obs) (x y : Z) (res : list Z) : list (tag * bool) :=
+  match res with
+  | k :: rest =>
+    match decode_points (coord_bits p ++ [x; y]) with
+    | Some allp =>
+        let pts := firstn (nV p) allp in
+        match skipn (nV p) allp with
+        | [q] =>
+            match find (fun v => pnt_eqb (pos pts v) q) (seq 0 (nV p)) with
+            | Some v => if (k =? K_some)%Z then check_remove_model cdt p n (Z.of_nat v) rest else [(T_corr, false)]
+            | None => [(T_corr, (k =? K_none)%Z && dcel_eqb (dcel_of_obs p) (dcel_of_obs n))]
+            end
+        | _ => [(T_parse, false)]
+        end
+    | None => []
+    end
+  | [] => []
+  end.
+
+
+Fixpoint run_model_steps (c : cfg) (p : obs) (k : nat) (l : list step) : list verdict :=
   match l with
   | [] => []
   | st :: t =>
@@ -189,9 +342,13 @@ Fixpoint run_model_steps (p : obs) (k : nat) (l : list step) : list verdict :=
               match s_args st with [x; y] => map (fun v => (k, fst v, snd v)) (check_locate_model p x y None (s_res st)) | _ => [] end
             else if (s_op st =? OP_nn)%Z then
               match s_args st with [x; y] => map (fun v => (k, fst v, snd v)) (check_nn_model p x y (s_res st)) | _ => [] end
+            else if (s_op st =? OP_line)%Z then map (fun v => (k, fst v, snd v)) (check_line_model (c_f32 c) false p (s_args st) (s_res st))
+            else if (s_op st =? OP_lineh)%Z then map (fun v => (k, fst v, snd v)) (check_line_model (c_f32 c) true p (s_args st) (s_res st))
+            else if (s_op st =? OP_confv)%Z || (s_op st =? OP_confp)%Z || (s_op st =? OP_isc)%Z then
+              map (fun v => (k, fst v, snd v)) (check_conf_model (c_f32 c) (s_op st) p (s_args st) (s_res st))
             else [])
          else [])
-        ++ run_model_steps p (S k) t
+        ++ run_model_steps c p (S k) t
     | Some raw =>
       match parse_obs raw with
       | None => [(k, T_parse, false)]
@@ -203,10 +360,20 @@ Fixpoint run_model_steps (p : obs) (k : nat) (l : list step) : list verdict :=
               | x :: y :: d :: _ => map (fun v => (k, fst v, snd v)) (check_insert_model p n x y d (s_res st))
               | _ => []
               end
+         else if ((s_op st =? OP_rm)%Z || (s_op st =? OP_trm)%Z) && negb (existsb (Z.eqb K_skip) (s_res st) || existsb (Z.eqb K_panic) (s_res st) || existsb (Z.eqb K_hang) (s_res st))
+         then match s_args st with
+              | v :: _ => map (fun r => (k, fst r, snd r)) (check_remove_model (c_cdt c) p n v (s_res st))
+              | _ => []
+              end
+         else if (s_op st =? OP_lrm)%Z && negb (existsb (Z.eqb K_skip) (s_res st) || existsb (Z.eqb K_panic) (s_res st) || existsb (Z.eqb K_hang) (s_res st))
+         then match s_args st with
+              | x :: y :: _ => map (fun r => (k, fst r, snd r)) (check_lrm_model (c_cdt c) p n x y (s_res st))
+              | _ => []
+              end
          else [])
-        ++ run_model_steps n (S k) t
+        ++ run_model_steps c n (S k) t
       end
     end
   end.
 
-Definition run_model_case (c : cfg) (l : list step) : list verdict := run_model_steps empty_obs 0 l.
+Definition run_model_case (c : cfg) (l : list step) : list verdict := run_model_steps c empty_obs 0 l.
